@@ -15,7 +15,7 @@ const DATA: u16 = 9;
 const HEADER: usize = 64;
 
 #[derive(Clone, Debug)]
-struct SendAt { at_us: u64, size: usize, id: u16 }
+struct SendAt { at_us: u64, size: usize, id: u16, direct: bool /* sent with send_in over a second, channel-less gate pair instead of being triggered by a timer */ }
 #[derive(Clone, Debug)]
 struct Scenario { bitrate: usize, latency_us: u64, policy: i64 /* -2 Drop, -1 Queue(None), >=0 Queue(Some(limit)) */, sends: Vec<SendAt>, consume_id: Option<u16>, end_err: u8 /* 0 = no, 1 = at_sim_end returns Err, 2 = a must-join task is still pending at the end (JoinError) */ }
 
@@ -58,7 +58,11 @@ impl Module for Node {
         }
         let sends = SENDS.lock().unwrap().clone();
         for s in sends.iter() {
-            schedule_in(Message::default().kind(TIMER).id(s.id), StdDuration::from_micros(s.at_us));
+            if s.direct {
+                send_in(Message::default().kind(DATA).id(s.id).with_content(vec![0u8; s.size]), "o2", StdDuration::from_micros(s.at_us));
+            } else {
+                schedule_in(Message::default().kind(TIMER).id(s.id), StdDuration::from_micros(s.at_us));
+            }
         }
     }
     fn at_sim_end(&mut self) -> Result<(), RuntimeError> {
@@ -99,7 +103,11 @@ fn reference(sc: &Scenario) -> Vec<(&'static str, u16, u16, u64)> {
     let mut f = Fes { zero: vec![], rest: vec![], now: 0, ord: 0 };
     // at_sim_start (bracketed, no message): timers are buffered and flushed in emission order
     log.push(("start", 0, 0, 0)); log.push(("start2", 0, 0, 0)); log.push(("end2", 0, 0, 0)); log.push(("end", 0, 0, 0));
-    for s in sc.sends.iter() { f.add(s.at_us * 1000, Ev::Timer(s.id)); }
+    // timers and delayed direct sends of one activation keep their emission order; a direct send with zero delay is walked inline
+    for s in sc.sends.iter() {
+        if s.direct { if s.at_us == 0 { f.add(0, Ev::Handle(s.id, s.size)); } else { f.add(s.at_us * 1000, Ev::Exit(s.id, s.size)); } }
+        else { f.add(s.at_us * 1000, Ev::Timer(s.id)); }
+    }
     let mut busy = false;
     let mut queue: Vec<(u16, usize)> = vec![];
     let mut acc: usize = 0;
@@ -159,6 +167,9 @@ fn run(sc: &Scenario) -> Result<(), (&'static str, &'static str, String, String)
     let policy = match sc.policy { -2 => ChannelDropBehaviour::Drop, -1 => ChannelDropBehaviour::Queue(None), l => ChannelDropBehaviour::Queue(Some(l as usize)) };
     let ch = Channel::new(ChannelMetrics::new(sc.bitrate, StdDuration::from_micros(sc.latency_us), StdDuration::ZERO, policy));
     g_out.connect(g_in, Some(ch));
+    let g_o2 = sim.gate("root", "o2");
+    let g_i2 = sim.gate("root", "i2");
+    g_o2.connect(g_i2, None);
     let res = std::panic::catch_unwind(std::panic::AssertUnwindSafe(move || Builder::seeded(1).quiet().build(sim.freeze()).run()));
     if res.is_err() { return Err(("run-panicked", "C07 C14", "run() returns".into(), "panic".into())); }
     let got = LOG.lock().unwrap().clone();
@@ -170,9 +181,43 @@ fn run(sc: &Scenario) -> Result<(), (&'static str, &'static str, String, String)
         let brackets = |v: &Vec<(&'static str, u16, u16, u64)>| -> Vec<&'static str> { v.iter().map(|e| e.0).collect() };
         let (kind, props) = if gd != ed {
             let mut a: Vec<u16> = gd.iter().map(|e| e.0).collect(); let mut b: Vec<u16> = ed.iter().map(|e| e.0).collect(); a.sort(); b.sort();
-            if a != b { ("delivered-set-differs (lost / duplicated / wrongly dropped or queued)", "C07") } else if gd.iter().map(|e| e.0).collect::<Vec<_>>() != ed.iter().map(|e| e.0).collect::<Vec<_>>() { ("delivery-order", "C07 C03") } else { ("delivery-time", "C07") }
+            if a != b { ("delivered-set-differs (lost / duplicated / wrongly dropped or queued)", "C07") } else if gd.iter().map(|e| e.0).collect::<Vec<_>>() != ed.iter().map(|e| e.0).collect::<Vec<_>>() { ("delivery-order", "C07 C03 C14") } else { ("delivery-time", "C07") }
         } else if brackets(&got) != brackets(&exp) { ("processing-bracket", "C14") } else { ("event-log", "C14 C07") };
         return Err((kind, props, format!("{:?}", exp), format!("{:?}", got)));
+    }
+    Ok(())
+}
+
+/// jitter > 0: delivery times cannot be predicted, only bounded: start + size*8/bitrate + latency <= t < ... + jitter.
+/// Sends are 100 s apart, so the channel is idle at every send and nothing is reordered.
+fn run_jitter(r: &mut dyn FnMut() -> u64) -> Result<(), (&'static str, &'static str, String, String, String)> {
+    let bitrate = [0usize, 8_000_000][(r() % 2) as usize];
+    let latency_us = [0u64, 100][(r() % 2) as usize];
+    let jitter_ms = [200u64, 3_000, 10_000][(r() % 3) as usize];
+    let n = 1 + (r() % 3) as usize;
+    let sends: Vec<SendAt> = (0..n).map(|i| SendAt { at_us: i as u64 * 100_000_000, size: [0usize, 436, 1000][(r() % 3) as usize], id: (i + 1) as u16, direct: false }).collect();
+    LOG.lock().unwrap().clear();
+    *SENDS.lock().unwrap() = sends.clone();
+    *CONSUME.lock().unwrap() = None;
+    *END_ERR.lock().unwrap() = 0;
+    let mut sim = Sim::new(());
+    sim.node("root", Node);
+    let g_in = sim.gate("root", "in");
+    let g_out = sim.gate("root", "out");
+    let ch = Channel::new(ChannelMetrics::new(bitrate, StdDuration::from_micros(latency_us), StdDuration::from_millis(jitter_ms), ChannelDropBehaviour::Queue(None)));
+    g_out.connect(g_in, Some(ch));
+    let seed = r();
+    let res = std::panic::catch_unwind(std::panic::AssertUnwindSafe(move || Builder::seeded(seed).quiet().build(sim.freeze()).run()));
+    let scen = format!("\"bitrate\":{},\"latency_us\":{},\"jitter_ms\":{},\"sends_at_us_size_id\":[{}]", bitrate, latency_us, jitter_ms, sends.iter().map(|s| format!("[{},{},{}]", s.at_us, s.size, s.id)).collect::<Vec<_>>().join(","));
+    if res.is_err() { return Err(("run-panicked", "C07", "run() returns".into(), "panic".into(), scen)); }
+    let got = LOG.lock().unwrap().clone();
+    for s in sends.iter() {
+        let lo = s.at_us * 1000 + busy_ns(bitrate, s.size + HEADER) + latency_us * 1000;
+        let hi = lo + jitter_ms * 1_000_000;
+        let at: Vec<u64> = got.iter().filter(|e| e.0 == "handle" && e.1 == DATA && e.2 == s.id).map(|e| e.3).collect();
+        if at.len() != 1 || at[0] < lo || at[0] >= hi {
+            return Err(("delivery-time-outside-jitter-window", "C07", format!("message {} delivered exactly once in [{} ns, {} ns)", s.id, lo, hi), format!("delivered at {:?} ns", at), scen));
+        }
     }
     Ok(())
 }
@@ -194,7 +239,7 @@ fn gen(r: &mut dyn FnMut() -> u64) -> Scenario {
         let gap = match r() % 5 { 0 => 0, 1 => prev_busy_us, 2 => prev_busy_us / 2, 3 => prev_busy_us + 50, _ => 10 + r() % 3000 };
         t += gap;
         if many { t = [0u64, 1000, 2000, 3000, 1000][(r() % 5) as usize]; } // unsorted timers with many ties, scheduled in one activation
-        sends.push(SendAt { at_us: t, size, id: (i + 1) as u16 });
+        sends.push(SendAt { at_us: t, size, id: (i + 1) as u16, direct: many && r() % 3 == 0 });
     }
     let total: usize = sends.iter().map(|s| s.size + HEADER).sum();
     let policy = match r() % 4 { 0 => -2, 1 => -1, 2 => 0, _ => { let l = r() as usize % (total + 1); if r() % 2 == 0 { l as i64 } else { (sends[(r() as usize) % sends.len()].size + HEADER) as i64 * (1 + (r() % 2) as i64) } } };
@@ -212,11 +257,20 @@ fn main() {
     let mut s = seed.wrapping_mul(6364136223846793005).wrapping_add(1442695040888963407) | 1;
     let mut rnd = move || { s ^= s << 13; s ^= s >> 7; s ^= s << 17; s };
     let mut other = String::new();
-    for _ in 0..count {
+    for it in 0..count {
+        if it % 12 == 5 {
+            if let Err((kind, props, exp, got, scen)) = run_jitter(&mut rnd) {
+                if filter.is_empty() || props.contains(filter.as_str()) {
+                    println!("{{\"mismatch\":true,\"kind\":\"{}\",\"props\":\"{}\",\"scenario\":{{{},\"policy\":-1}},\"expected\":\"{}\",\"observed\":\"{}\"}}", kind, props, scen, exp.replace('"', "'"), got.replace('"', "'"));
+                    std::process::exit(3);
+                } else if other.is_empty() { other = format!("{} ({})", kind, props); }
+            }
+            continue;
+        }
         let sc = gen(&mut rnd);
         if let Err((kind, props, exp, got)) = run(&sc) {
             if filter.is_empty() || props.contains(filter.as_str()) {
-                let sends: Vec<String> = sc.sends.iter().map(|s| format!("[{},{},{}]", s.at_us, s.size, s.id)).collect();
+                let sends: Vec<String> = sc.sends.iter().map(|s| format!("[{},{},{}{}]", s.at_us, s.size, s.id, if s.direct { ",\"direct\"" } else { "" })).collect();
                 println!("{{\"mismatch\":true,\"kind\":\"{}\",\"props\":\"{}\",\"scenario\":{{\"bitrate\":{},\"latency_us\":{},\"policy\":{},\"sends_at_us_size_id\":[{}],\"consume_id\":{},\"at_sim_end_returns_err\":{}}},\"expected\":\"{}\",\"observed\":\"{}\"}}",
                     kind, props, sc.bitrate, sc.latency_us, sc.policy, sends.join(","), sc.consume_id.map(|c| c as i64).unwrap_or(-1), sc.end_err, exp.replace('"', "'"), got.replace('"', "'"));
                 std::process::exit(3);
